@@ -4,7 +4,7 @@ import json, re, subprocess, sys, os
 base = json.load(open('/root/.vp/BASELINE.json'))
 want = set(base['stable_pass'])
 env = dict(os.environ); env.pop('RUSTFLAGS', None); env['CARGO_NET_OFFLINE'] = 'true'
-p = subprocess.run(['cargo', 'test', '--workspace', '--no-fail-fast', '--offline'], cwd='/repo', env=env, stdout=subprocess.PIPE, stderr=subprocess.STDOUT, text=True)
+p = subprocess.run(['cargo', 'test', '--workspace', '--no-fail-fast', '--offline'], cwd=(sys.argv[1] if len(sys.argv) > 1 else '/repo'), env=env, stdout=subprocess.PIPE, stderr=subprocess.STDOUT, text=True)
 out = p.stdout
 crate = None; passed = set(); failed = set()
 for line in out.splitlines():
